@@ -535,6 +535,25 @@ static void ddn_case(Rng & rng, const std::string & tier) {
     F::FactoredMatrix2D fm; fm.bases.push_back(bp);
     putGetsM(l, c.S, c.A, fm);
     l.emit();
+    // getIds(feature, j): inverse row lookup
+    {
+        Line r; r << "C14" << "ddnrows"; r.nats(c.S); r.nats(c.A);
+        r << (size_t)pss.size();
+        for (auto & ps : pss) { r.nats(ps.agents); r << (size_t)ps.features.size(); for (auto & f : ps.features) r.nats(f); }
+        r << "|" << (size_t)c.S.size();
+        for (size_t i = 0; i < c.S.size(); ++i) {
+            size_t sz = c.g->getSize(i); r << 2 * sz;
+            for (size_t j = 0; j < sz; ++j) { auto [pid, aid] = c.g->getIds(i, j); r << pid << aid; }
+        }
+        r << (size_t)c.S.size();
+        for (size_t i = 0; i < c.S.size(); ++i) { size_t na = c.g->getPartialSize(i); r << na; for (size_t k = 0; k < na; ++k) r << c.g->getPartialSize(i, k); }
+        r << (size_t)c.S.size();
+        for (size_t i = 0; i < c.S.size(); ++i) {
+            size_t sz = c.g->getSize(i); r << sz;
+            for (size_t j = 0; j < sz; ++j) { auto [pid, aid] = c.g->getIds(i, j); r << c.g->getId(i, pid, aid); }
+        }
+        r.emit();
+    }
     // backProject(FactoredVector) is the per-basis map: compare structurally through an `eq` line
     {
         F::FactoredVector fv; fv.bases.push_back(rhs); fv.bases.push_back(randBF(rng, c.S, randTag(rng, c.S.size())));
